@@ -64,9 +64,12 @@ AWriteByName == On("WriteByName") /\ \E t \in LiveTab(S) : \E i \in 1..Len(S.col
              Do(WriteVec(S, S.cols[t][i], r, x, s), Act("Write", S.cols[t][i], s, r, x, <<>>, "byname", ""))
 AConcatEmpty == On("ConcatEmpty") /\ DeadObjs(S) # {} /\ \E o \in LiveVec(S) : Len(Contents(S, o)) > 0 /\
              Do(ConcatEmpty(S, o), Act("ConcatEmpty", o, 0, 0, 0, <<>>, NoName, ""))
+AWriteRow == On("WriteRow") /\ \E t \in LiveTab(S) : S.tlen[t] > 0 /\ \E r \in 1..S.tlen[t] :
+             \E xs \in [1..Len(S.cols[t]) -> Vals], sids \in Seqs(Len(S.cols[t])) :
+             Do(WriteRow(S, t, r, xs, sids), Act("WriteRow", t, r, 0, 0, xs, NoName, ""))
 ADir == On("Dir") /\ \E t \in LiveTab(S) : Do(Dir(S, t), Act("Dir", t, 0, 0, 0, <<>>, NoName, ""))
 
-Next == AWriteByName \/ ADir \/ AConcatEmpty \/ ANewVec \/ AShareVec \/ ADropTuple \/ ACopy \/ ADrop \/ AWrite \/ AReadFpV \/ ANewTable
+Next == AWriteByName \/ ADir \/ AConcatEmpty \/ AWriteRow \/ ANewVec \/ AShareVec \/ ADropTuple \/ ACopy \/ ADrop \/ AWrite \/ AReadFpV \/ ANewTable
         \/ ASetAttr \/ AColView \/ ADropTable \/ AReadFpT \/ ARename \/ ARenameColumn \/ ALookup
 Spec == Init /\ [][Next]_vars
 Bound == Len(path) < MaxDepth
@@ -81,7 +84,9 @@ InvDtypeTruthful == DtypeTruthful(st)
 InvSane == Sane(st)
 InvCmap == CmapFreshOrFlagged(st)
 (* a refusal was justified: the target really shared its storage (C15, on the call itself) *)
-InvRefusalJustified == last.res = "Refused" => Cardinality(Sharers(st, last.x)) > 1
+InvRefusalJustified == last.res = "Refused" =>
+    IF last.a = "WriteRow" THEN \E o \in ColumnsOf(st, last.x) : Cardinality(Sharers(st, o)) > 1
+    ELSE Cardinality(Sharers(st, last.x)) > 1
 (* a fingerprint read returns the hash of the CURRENT contents, memo or not (C16) *)
 InvFpReadCurrent == /\ last.a = "ReadFpV" => last.vs = Contents(st, last.x)
                     /\ last.a = "ReadFpT" => FpResultT(st, last.x) = TableContents(st, last.x)
@@ -113,7 +118,7 @@ WriteChangesFp == [][ (last'.a = "Write" /\ last'.res = "Ok" /\ Contents(st', la
    checks them on every transition without building the liveness graph (much faster);
    the engine reports the name carried by the failing Assert as the violated property.   *)
 WritesLocalStep ==
-    last'.a \in {"Write", "SetAttr"} =>
+    last'.a \in {"Write", "SetAttr", "WriteRow"} =>
         \A x \in (st.live \cap st'.live) \ Entity(st, last'.x) : ViewOf(st', x) = ViewOf(st, x)
 PureOpsStep ==
     last'.a \in {"NewVec", "ShareVec", "Copy", "ConcatEmpty", "ReadFpV", "ReadFpT", "NewTable", "ColView", "Lookup", "Dir", "Drop", "DropTuple", "DropTable"} =>
